@@ -24,11 +24,13 @@ pub fn run() {
 	par_each(cases.into_iter(), |(abs, dev), local| {
 		let bytes = Arc::new(record(&abs).doc.assemble());
 		let class: &'static str = if dev == 0 { "dev0" } else { "dev>0" };
-		for s in [Sched::Full, Sched::Chunk(1), Sched::Chunk(7)] {
-			let mut p = P { class, ..Default::default() };
+		for (k, s) in [Sched::Full, Sched::Chunk(1), Sched::Chunk(7)].into_iter().enumerate() {
+			// the 7-byte schedule also passes Opts { skip_frames } to the incremental calls (event by event the
+			// option only changes the initial column capacity; everything parsed must be the same)
+			let mut p = P { class, skip: k == 2, ..Default::default() };
 			set_sched(&mut p, &s);
 			p.n[0] = aspects;
-			eval_case("incremental", o_incremental, &bytes, &p, || format!("{} sched={:?}", abs.describe(), s), local);
+			eval_case("incremental", o_incremental, &bytes, &p, || format!("{} sched={:?} skip_opt={}", abs.describe(), s, k == 2), local);
 		}
 	});
 	// end / metadata variants at deviation 0 across all class representatives
